@@ -16,6 +16,7 @@ MAMBA = 'pymtl3/passes/mamba/Mamba2020Pass.py'
 SIMPLE = 'pymtl3/passes/sim/SimpleSchedulePass.py'
 TICK = 'pymtl3/passes/sim/SimpleTickPass.py'
 GENDAG = 'pymtl3/passes/sim/GenDAGPass.py'
+GREENLET = 'pymtl3/passes/sim/WrapGreenletPass.py'
 OPENLOOP = 'pymtl3/passes/autotick/OpenLoopCLPass.py'
 ERRORS = 'pymtl3/dsl/errors.py'
 
@@ -1387,7 +1388,7 @@ def once_names(im):
     out = set()
     for f in {im.root, im.outer}:
         for n in walk_no_nested(f):
-            if isinstance(n, ast.Assign) and is_method_call(n.value, 'get_all_update_once'):
+            if isinstance(n, ast.Assign) and any(is_method_call(c, 'get_all_update_once') for c in ast.walk(n.value)):
                 out |= {t.id for t in n.targets if isinstance(t, ast.Name)}
     return out
 
@@ -1571,8 +1572,12 @@ def _check_per_scc_state(r, im, E0):
             exts.setdefault(nm, []).append(n)
     loop_targets = {x.id for lp in walk_no_nested(region) if isinstance(lp, ast.For) for x in ast.walk(lp.target)
                     if isinstance(x, ast.Name)}
+    published = set()
+    for n in walk_no_nested(im.root):
+        if isinstance(n, ast.Assign) and any(isinstance(t, ast.Attribute) and t.attr == 'update_schedule' for t in n.targets):
+            published |= {t.id for t in n.targets if isinstance(t, ast.Name)}
     for nm in sorted(exts):
-        if nm in loop_targets:
+        if nm in loop_targets or nm in published:      # the published schedule accumulates over all SCCs on purpose
             continue
         ext_nodes = exts[nm]
         # pure output accumulators (never read inside the region except to be extended) are loop-carried on purpose
@@ -1610,6 +1615,59 @@ def _check_per_scc_state(r, im, E0):
             r.ok(m, fn, cons + ": created inside the per-SCC code before it is extended")
 
 
+def _check_once_representation(r, repo):
+    """WrapGreenletPass replaces blocking blocks by greenlet wrappers in final_upblks / all_constraints; the SCC members are
+    then wrappers while top.get_all_update_once() still holds the ORIGINAL blocks: `x in onces` is False for a wrapped
+    update_once block.  As long as constraint_objs keeps the original keys the edges of a wrapped block contribute no
+    variable (the no-variable guard takes over); once they are re-keyed too, the once test must see through the mapping."""
+    if not repo.exists(GREENLET):
+        raise AnalysisError("anchor vanished: WrapGreenletPass.py")
+    gm = repo.mod(GREENLET)
+    gf = gm.get_func('WrapGreenletPass.wrap_greenlet')
+    aliases = {'top._dag.constraint_objs'}
+    for n in walk_no_nested(gf):
+        if isinstance(n, ast.Assign) and isinstance(n.value, ast.Attribute) and n.value.attr == 'constraint_objs':
+            aliases |= {norm(t) for t in n.targets}
+    rekey = [n for n in walk_no_nested(gf) if
+             (isinstance(n, (ast.Assign, ast.AugAssign)) and any(
+                 isinstance(t, ast.Subscript) and norm(t.value) in aliases
+                 for t in (n.targets if isinstance(n, ast.Assign) else [n.target]))) or
+             (isinstance(n, ast.Assign) and any(isinstance(t, ast.Attribute) and t.attr == 'constraint_objs' for t in n.targets)) or
+             (isinstance(n, ast.Call) and isinstance(n.func, ast.Attribute) and norm(n.func.value) in aliases
+              and n.func.attr in ('pop', 'update', 'setdefault', '__setitem__'))]
+    rekeys_edges = any(isinstance(n, ast.Assign) and any(isinstance(t, ast.Attribute) and t.attr == 'all_constraints'
+                                                          for t in n.targets) for n in walk_no_nested(gf))
+    if not rekeys_edges:
+        raise AnalysisError("WrapGreenletPass.wrap_greenlet: cannot find where all_constraints is replaced by the wrapped edges")
+    for im in impls(repo):
+        onces = once_names(im)
+        mapped = False
+        for f in {im.root, im.outer}:
+            for n in walk_no_nested(f):
+                if isinstance(n, ast.Assign) and any(isinstance(t, ast.Name) and t.id in onces for t in n.targets) \
+                        and 'blk_greenlet_mapping' in norm(n.value):
+                    mapped = True
+                if isinstance(n, ast.Compare) and names_in(n) & onces and 'blk_greenlet_mapping' in norm(n):
+                    mapped = True
+        cons = "update_once test on an SCC member that is a greenlet wrapper (member = wrapper W of once-block B, onces = {B})"
+        if mapped:
+            r.ok(im.mod, im.qual, cons + ": the test sees through blk_greenlet_mapping")
+        elif rekey:
+            r.bad(im.mod, im.qual, cons,
+                  f"WrapGreenletPass re-keys constraint_objs to the greenlet wrappers (`{norm(rekey[0])[:70]}`), so the edges of a wrapped "
+                  f"block now carry variables and pass the no-variable guard, while `x in onces` compares the wrapper W with the "
+                  f"original update_once block B and is False: a signal cycle through a blocking update_once block is iterated "
+                  f"inside wrapped_SCC instead of raising UpblkCyclicError ({gm.rel}:{getattr(rekey[0], 'lineno', 0)})",
+                  im.root.lineno)
+        else:
+            r.ok(im.mod, im.qual, cons + ": not matched by `in onces`, but constraint_objs keeps the original block keys, so the "
+                                         "edges of a wrapper carry no variable and the no-variable guard rejects the cycle")
+            note = ("a wrapped update_once block inside an SCC that also has variable-carrying edges between unwrapped blocks is "
+                    "rejected by neither test (`x in onces` sees the wrapper, the variable set is non-empty)")
+            if note not in r.observations:
+                r.observations.append(note)
+
+
 def rule_once(repo):
     r = RuleResult('R-C11-once',
                    "an SCC that contains an update_once block, or whose edges carry no variable, is rejected with "
@@ -1622,6 +1680,7 @@ def rule_once(repo):
             _check_once(r, im, E0)
             _check_novar(r, im, E0)
             _check_per_scc_state(r, im, E0)
+    _check_once_representation(r, repo)
     _floor(r, 24)
     return r
 
@@ -2080,7 +2139,14 @@ def _check_seeds(r, im, Q, w):
             core = core.args[0]
         if not (isinstance(core, ast.Subscript) and isinstance(core.slice, ast.Subscript)
                 and isinstance(core.slice.value, ast.Name)):
-            raise AnalysisError(f"{fn}: cannot resolve the neighbouring SCC `{PRED}`")
+            if pv is None:
+                raise AnalysisError(f"{fn}: cannot resolve the neighbouring SCC `{PRED}`")
+            r.bad(m, fn, f"{PRED} = {norm(pv)} / {pc}",
+                  f"the entry blocks of an SCC are searched among the neighbours lying in `{norm(pv)}`, not in the blocks of the "
+                  f"neighbouring SCC recorded by the SCC-level sort (SCCs[scc_pred[i]]): with two non-trivial SCCs in a row the "
+                  f"first one is present there only as its generated wrapped_SCC function, no edge endpoint matches, the worklist "
+                  f"stays empty and the super-block of the second SCC runs no block", st.lineno)
+            continue
         SP = core.slice.value.id
         want, dirs, _ = _pred_direction(im, SP)
         M = norm(strip_wrappers(inner.iter).value)
@@ -3194,6 +3260,14 @@ MUTANTS = [
        "        blk_srcs.append( f\"blk{i} # {b.__name__}\" )", 'R-C11-cover', file=MAMBA),
     _m('mamba-meta-block-skips-first-block', "    for i, b in enumerate(blocks):\n      # This is a normal update block",
        "    for i, b in list(enumerate(blocks))[1:]:\n      # This is a normal update block", 'R-C11-cover', file=MAMBA),
+    _m('dyn-entry-blocks-searched-in-the-schedule', "pred = set( SCCs[ scc_pred[i] ] )", "pred = set( schedule )", 'R-C11-cover'),
+    _m('mamba-entry-blocks-searched-in-own-schedule', "pred = set( SCCs[ scc_pred[i] ] )", "pred = set( tmp_schedule )", 'R-C11-cover',
+       file=MAMBA),
+    _m('greenlet-pass-rekeys-constraint-objs', "    top._dag.final_upblks    = new_upblks\n",
+       "    constraint_objs = top._dag.constraint_objs\n    for (x, y) in list( constraint_objs ):\n"
+       "      if x in greenlet_upblks or y in greenlet_upblks:\n        objs = constraint_objs.pop( (x, y) )\n"
+       "        constraint_objs[ ( blk_greenlet_mapping.get( x, x ), blk_greenlet_mapping.get( y, y ) ) ] |= objs\n\n"
+       "    top._dag.final_upblks    = new_upblks\n", 'R-C11-once', file=GREENLET),
     # --- siblings / acyclic-only pass
     _m('mamba-bound-differs', "    if N > 100:\n", "    if N > 1000:\n", 'R-C11-siblings', file=MAMBA),
     _m('simple-incomplete-schedule-accepted', "if len(schedule) != len(V):", "if len(schedule) > len(V):", 'R-C11-acyclic',
@@ -3250,6 +3324,17 @@ EQUIV = [
         dict(file=MAMBA, old="    for i, b in enumerate(blocks):\n      # This is a normal update block",
              new="    for i, b in enumerate(blocks):\n      call = f\"blk{i}()\"\n      # This is a normal update block"),
         dict(file=MAMBA, old="        blk_srcs.append( f\"blk{i}() # {b.__name__}\" )", new="        blk_srcs.append( f\"{call} # {b.__name__}\" )")]),
+    dict(name='rekeyed-objs-and-once-test-through-the-mapping', edits=[
+        dict(file=GREENLET, old="    top._dag.final_upblks    = new_upblks\n",
+             new="    constraint_objs = top._dag.constraint_objs\n    for (x, y) in list( constraint_objs ):\n"
+                 "      if x in greenlet_upblks or y in greenlet_upblks:\n        objs = constraint_objs.pop( (x, y) )\n"
+                 "        constraint_objs[ ( blk_greenlet_mapping.get( x, x ), blk_greenlet_mapping.get( y, y ) ) ] |= objs\n\n"
+                 "    top._dag.final_upblks    = new_upblks\n"),
+        dict(file=DYN, old="    onces = top.get_all_update_once()",
+             new="    onces = { top._dag.blk_greenlet_mapping.get( x, x ) for x in top.get_all_update_once() }"),
+        dict(file=MAMBA, old="    onces = top.get_all_update_once()",
+             new="    onces = { top._dag.blk_greenlet_mapping.get( x, x ) for x in top.get_all_update_once() }")]),
+    _m('pred-set-through-helper', "pred = set( SCCs[ scc_pred[i] ] )", "pred = set( list( SCCs[ scc_pred[i] ] ) )"),
     _m('while-one', "  while True:\n", "  while 1:\n", file=MAMBA),
     dict(name='counter-starts-at-one', edits=[dict(file=DYN, old="  N = 0\n", new="  N = 1\n"),
                                               dict(file=DYN, old="    if N > 100:\n", new="    if N > 101:\n")]),
